@@ -2,6 +2,7 @@ import NanoVerif.Proofs.PoolAll
 import NanoVerif.Proofs.PoolGap
 import NanoVerif.Proofs.PoolProgress
 import NanoVerif.Proofs.PoolFine
+import NanoVerif.Proofs.PoolScopesGen
 /-!
   C17 — property theorems about the thread-pool protocol model (`Model/Pool.lean`): every statement quantifies over
   every reachable state, i.e. over every interleaving of any number of workers, tasks and client calls (several
@@ -41,6 +42,15 @@ import NanoVerif.Proofs.PoolFine
   Hypotheses re-examined: `0 < s.nw` of `quiescent_complete` / `deadlock_free` holds for every pool (`pool_size_bounds`: size ≥ 1);
   `s.stop = false` in "ready ⇒ done" is necessary (kernel-checked run with a dropped task below, replayed on the real code by the
   corpus lines with waitmode 2); the usage contract "no submission after `~pool_t` started" stays an assumption. No `_partial` theorem.
+-/
+/-!
+  LOCK SCOPES (round 5): `tools/props/c17_translate.py` re-reads `src/core/parallel.cpp` / `include/nano/core/parallel.h` on every run
+  (hook statements and `NANO_VERIF` branches removed) into `Gen/PoolScopes.lean`: per function the accesses to `m_tasks` / `m_stop` /
+  `m_condition` in program order with the flag "lexically under a lock on the queue's mutex". `Proofs/PoolScopesGen.lean` (namespace
+  `Pool.Scopes`): `model_pool_scopes_is_generated` (= the program order this model follows), `shared_state_only_under_lock`,
+  `enqueue_no_lock_called_under_lock`, `never_blocks_or_runs_under_lock`, `wake_up_after_publication`, `every_access_classified`.
+  The trace monitors (`Model/PoolMon.lean`) check the same membership at run time, but only through the hook statements; this ties
+  the statements themselves.
 -/
 namespace NanoVerif.Pool
 
